@@ -97,9 +97,9 @@ J('A.bsearch_s', ['C16', 'C02', 'C05', 'C01'], 'A', 'contracts/misc/bsearch_s.sp
   enforce='_bsearch_s_chk', functions=['_bsearch_s_chk'], sliced=False, timeout=600, fallback='B.bsearch_s.sz4',
   note='every nmemb, 4-byte elements, no assumption on the order of the array: comparator arguments in range, a returned pointer is a matching element, termination')
 
-J('A.memcmp_s', ['C10', 'C02', 'C05', 'C01'], 'A', 'contracts/extmem/memcmp_s.spec.c',
+J('A.memcmp_s', ['C10'], 'A', 'contracts/extmem/memcmp_s.spec.c',
   sources=['src/extmem/memcmp_s.c'], overlays={'src/extmem/memcmp_s.c': 'contracts/extmem/memcmp_s.loops'},
-  enforce='_memcmp_s_chk', functions=['_memcmp_s_chk'], sliced=False, timeout=600, tiers=('dev',), fallback='B.q.memcmp_s',
+  enforce='_memcmp_s_chk', functions=['_memcmp_s_chk'], sliced=False, timeout=600, fallback='B.q.memcmp_s',
   note='every dmax / slen, two separate exact-fit objects of symbolic size, sizes known or unknown to the library')
 
 # ---- engine B: copy / concatenate family against the reference model in harness/copyfam.c
